@@ -21,9 +21,16 @@
   an `LTok` = the collection id of the simple-lock that minted it, the wrapped asset, the unlock
   epoch).
 
-  Not modelled: `upgradePair`, `issueLpToken`/`setLocalRoles` (async ESDT system-SC flow; the LP
-  token id and roles are installed directly, as the repo's tests do),
-  the temporary-owner bookkeeping (only read by `issueLpToken`), events.
+  `issueLpToken` / `setLocalRoles` / `upgradePair` are modelled up to the point where they register
+  their asynchronous call (ESDT system SC `issue` / `setSpecialRole`, `upgradeContract` from the
+  template): every guard, and the one storage write that precedes the call (an expired
+  temporary-owner entry is removed by `get_pair_temporary_owner`).  The asynchronous tail and the
+  `lp_token_issue_callback` are NOT modelled (the white-box VM's system-SC mock sends no initial
+  supply back, so the callback cannot learn the token id); the LP token id and roles are
+  installed directly right after `createPair`, as the repo's tests do — unless the environment
+  flag `bareNext` is on, in which case the new pair is left without LP token (`noLp`).
+  The pair model does not know that liquidity cannot be added before the LP token exists: the
+  generator never adds liquidity to a `noLp` pair.  Events are not modelled.
   The contract keeps two notions of owner (the account owner checked by `#[only_owner]` and the
   `owner` storage cell written by `init`); both are the deployer, modelled as one `owner`.
 -/
@@ -156,6 +163,38 @@ def checkIsPairSc (m : Reg) (w : Pairs) (a : Addr) : Option Unit := do
     | none => lookup m (p.t2, p.t1))
   req (x = a)
 
+/-! ### the temporary owners: `pair_temporary_owner : MapMapper<ManagedAddress, (ManagedAddress, u64)>` -/
+
+/-- `TEMPORARY_OWNER_PERIOD_BLOCKS` (factory.rs) -/
+def TEMPORARY_OWNER_PERIOD_BLOCKS : Nat := 50
+
+/-- (pair, creator, creation block) in the `MapMapper`'s iteration order (= insertion order) -/
+abbrev TmpMap := List (Addr × Addr × Nat)
+
+/-- `pair_temporary_owner().get(&pair)` -/
+def tmpLookup : TmpMap → Addr → Option (Addr × Nat)
+  | [], _ => none
+  | (k, v) :: m, a => if k = a then some v else tmpLookup m a
+
+/-- `pair_temporary_owner().remove(&pair)` (the remaining entries keep their order) -/
+def tmpErase : TmpMap → Addr → TmpMap
+  | [], _ => []
+  | (k, v) :: m, a => if k = a then tmpErase m a else (k, v) :: tmpErase m a
+
+/-- `pair_temporary_owner().insert(pair, v)`: a new key goes to the end, an existing key keeps
+    its place and gets the new value -/
+def tmpInsert : TmpMap → Addr → Addr × Nat → TmpMap
+  | [], a, v => [(a, v)]
+  | (k, w) :: m, a, v => if k = a then (k, v) :: m else (k, w) :: tmpInsert m a v
+
+/-- `get_pair_temporary_owner(pair)` at block `now` with period `period`: the map it leaves
+    behind (an expired entry is REMOVED) and the temporary owner, if one is live -/
+def getTmpOwner (m : TmpMap) (period now : Nat) (a : Addr) : TmpMap × Option Addr :=
+  match tmpLookup m a with
+  | some (t, created) =>
+      if created + period ≤ now then (tmpErase m a, none) else (m, some t)
+  | none => (m, none)
+
 /-! ### state -/
 
 structure St where
@@ -192,6 +231,16 @@ structure St where
   lbal : Addr → LTok → Nat := fun _ _ => 0
   /-- the locked-token classes minted so far, in order of creation (ghost; what the driver prints) -/
   lkeys : List LTok := []
+  /-- `blockchain().get_block_nonce()` -/
+  block : Nat := 0
+  /-- `temporary_owner_period` (`init`: `TEMPORARY_OWNER_PERIOD_BLOCKS` if empty) -/
+  tmpPeriod : Nat := TEMPORARY_OWNER_PERIOD_BLOCKS
+  /-- `pair_temporary_owner : MapMapper<pair, (creator, creation block)>` in iteration order -/
+  tmpOwners : TmpMap := []
+  /-- pairs deployed by `createPair` whose LP token has not been issued / installed -/
+  noLp : List Addr := []
+  /-- environment flag: the LP token of the pairs created from now on is NOT installed -/
+  bareNext : Bool := false
 
 /-- results of an operation -/
 structure Out where
@@ -241,7 +290,9 @@ def createPair (s : St) (c : Addr) (t1 t2 : Tok) (adder : Addr) (fees : Option (
   pure ({ s with pairMap := s.pairMap ++ [((t1, t2), a)],
                  pairs := upd s.pairs a (some (newPair t1 t2 fp.1 fp.2 adder)),
                  addrs := s.addrs ++ [a],
-                 nextAddr := a + 1 }, { addr := a })
+                 nextAddr := a + 1,
+                 tmpOwners := tmpInsert s.tmpOwners a (c, s.block),
+                 noLp := if s.bareNext then s.noLp ++ [a] else s.noLp }, { addr := a })
 
 /-- `removePair(first, second)` by `c` (owner only); returns the removed address -/
 def removePair (s : St) (c : Addr) (t1 t2 : Tok) : Option (St × Out) := do
@@ -305,6 +356,61 @@ def setCreation (s : St) (c : Addr) (b : Bool) : Option (St × Out) := do
 def setTemplate (s : St) (c : Addr) : Option (St × Out) := do
   req (c = s.owner)
   pure ({ s with templateSet := true }, {})
+
+/-! ### the temporary-owner period, LP token issuing, local roles, pair upgrade -/
+
+/-- `setTemporaryOwnerPeriod(period_blocks)` by `c` (no state check) -/
+def setTmpPeriod (s : St) (c : Addr) (n : Nat) : Option (St × Out) := do
+  req (c = s.owner)
+  pure ({ s with tmpPeriod := n }, {})
+
+/-- `clearPairTemporaryOwnerStorage()` by `c` (no state check); returns the number of entries -/
+def clearTmp (s : St) (c : Addr) : Option (St × Out) := do
+  req (c = s.owner)
+  pure ({ s with tmpOwners := [] }, { v1 := s.tmpOwners.length })
+
+/-- `issueLpToken(pair, name, ticker)` by `c`, up to the asynchronous `issue` call: the guards in
+    the order of the code; the only storage write is the removal of an expired temporary-owner
+    entry by `get_pair_temporary_owner` -/
+def issueLp (s : St) (c a : Addr) : Option (St × Out) := do
+  req (s.active = true)
+  req (c = s.owner ∨ s.creationEnabled = true)
+  checkIsPairSc s.pairMap s.pairs a
+  let r := getTmpOwner s.tmpOwners s.tmpPeriod s.block a
+  -- "Temporary owner differs"
+  req (r.2 = none ∨ r.2 = some c)
+  -- "LP Token already issued"
+  req (a ∈ s.noLp)
+  pure ({ s with tmpOwners := r.1 }, {})
+
+/-- `setLocalRoles(pair)` by anybody, up to the asynchronous `setSpecialRole` call -/
+def setLocalRoles (s : St) (_c a : Addr) : Option (St × Out) := do
+  req (s.active = true)
+  checkIsPairSc s.pairMap s.pairs a
+  -- "LP token not issued"
+  req (a ∉ s.noLp)
+  pure (s, {})
+
+/-- `upgradePair(first, second)` by `c`, up to the asynchronous `upgradeContract` call (the
+    pair's own `upgrade` does nothing) -/
+def upgradePair (s : St) (c : Addr) (t1 t2 : Tok) : Option (St × Out) := do
+  req (c = s.owner)
+  req (s.active = true)
+  req (t1 ≠ t2)
+  req (validTok t1)
+  req (validTok t2)
+  req (getPair s.pairMap t1 t2 ≠ 0)
+  pure (s, {})
+
+/-- the block nonce moves forward -/
+def advanceBlock (s : St) (n : Nat) : Option (St × Out) := do
+  req (s.block ≤ n)
+  pure ({ s with block := n }, {})
+
+/-- environment: from now on the LP token of a new pair is (`false`) / is not (`true`)
+    installed right after its creation -/
+def setBareNext (s : St) (b : Bool) : Option (St × Out) :=
+  pure ({ s with bareNext := b }, {})
 
 /-! ### multiPairSwap -/
 
@@ -583,6 +689,13 @@ inductive Op
   | lock (u : Addr) (coll : Tok) (orig amount unlock : Nat)
   | unlock (u : Addr) (k : LTok) (amount : Nat)
   | advance (e : Nat)
+  | setTmpPeriod (c : Addr) (n : Nat)
+  | clearTmp (c : Addr)
+  | issueLp (c a : Addr)
+  | setLocalRoles (c a : Addr)
+  | upgradePair (c : Addr) (t1 t2 : Tok)
+  | advanceBlock (n : Nat)
+  | bareNext (b : Bool)
   deriving DecidableEq, Repr
 
 def step (s : St) : Op → Option (St × Out)
@@ -608,6 +721,13 @@ def step (s : St) : Op → Option (St × Out)
   | .lock u coll orig amount unlock => lockTokens s u coll orig amount unlock
   | .unlock u k amount => unlockTokens s u k amount
   | .advance e => advance s e
+  | .setTmpPeriod c n => setTmpPeriod s c n
+  | .clearTmp c => clearTmp s c
+  | .issueLp c a => issueLp s c a
+  | .setLocalRoles c a => setLocalRoles s c a
+  | .upgradePair c t1 t2 => upgradePair s c t1 t2
+  | .advanceBlock n => advanceBlock s n
+  | .bareNext b => setBareNext s b
 
 /-- the state after a history: failed transactions leave the state unchanged. -/
 def run (s : St) (ops : List Op) : St :=
